@@ -118,7 +118,9 @@ def judge_model(d):
                         pair = Rotation.concatenate([Rotation.identity(), cands[c]]) if planted.angle(cands[c], Rotation.identity()) > 1e-9 \
                             else None
                         if pair is None:
-                            r, _ = run_model(Model, [templates[i]], None, sub, ms, mask)
+                            # the identity candidate is part of every {identity, q} pair model below / above; a model
+                            # without rotations treats the mask differently (no spline smoothing), so it is no reference
+                            continue
                         else:
                             r, _ = run_model(Model, [templates[i]], pair, sub, ms, mask)
                     best = max(best, float(r.score))
